@@ -3,10 +3,12 @@ import SmsVerif.Driver.Util
 namespace SmsVerif.Driver
 open SmsVerif SmsVerif.Validity
 
-/-- `validity <nowNs> <durationNs|x> <rel 0|1>`; a negative duration is written with a leading 'm' -/
+/-- `validity <nowNs> <durationNs|x> <rel 0|1> [t<hex of the text>]`; a negative duration is written with a
+    leading 'm'; the optional last token (the text the duration was parsed from) is for the replay only -/
 def handleValidity (toks : List String) : Option String := do
   match toks with
-  | [now, d, r] =>
+  | now :: d :: r :: rest =>
+    if rest.length > 1 then none else
     let nowNs ← now.toNat?
     let dur : Option Int ←
       if d == "x" then pure none
